@@ -197,9 +197,49 @@ macro_rules! ledger_drop {
         impl Drop for $t {
             fn drop(&mut self) {
                 ledger().on_drop(self.tag(), self.ok());
+                drop_probe();
             }
         }
     };
+}
+
+// ---- drop probe ---------------------------------------------------------------
+// In "probe" runs every payload destructor takes and releases the lock of the channel under test (through a
+// closure that is not a handle). If the channel ever runs a destructor inside its own critical section the calling
+// operation never returns and the stuck detector reports it. The probe adds acquire/release edges through the
+// channel's own lock, so it is only switched on in a few native jobs, never under Miri / TSan.
+static PROBE_WANTED: std::sync::atomic::AtomicBool = std::sync::atomic::AtomicBool::new(false);
+static PROBE_ON: std::sync::atomic::AtomicBool = std::sync::atomic::AtomicBool::new(false);
+static PROBE: std::sync::RwLock<Option<std::sync::Arc<dyn Fn() + Send + Sync>>> = std::sync::RwLock::new(None);
+pub static PROBE_CALLS: AtomicU64 = AtomicU64::new(0);
+pub fn want_drop_probe(on: bool) {
+    PROBE_WANTED.store(on, Relaxed);
+}
+pub fn drop_probe_wanted() -> bool {
+    PROBE_WANTED.load(Relaxed)
+}
+pub fn set_drop_probe(p: Option<Box<dyn Fn() + Send + Sync>>) {
+    PROBE_ON.store(false, std::sync::atomic::Ordering::SeqCst);
+    let new: Option<std::sync::Arc<dyn Fn() + Send + Sync>> = p.map(std::sync::Arc::from);
+    let on = new.is_some();
+    let old = {
+        let mut g = PROBE.write().unwrap();
+        std::mem::replace(&mut *g, new)
+    };
+    // the old closure may be the last owner of a channel: its buffered payloads are destroyed here, outside our lock
+    drop(old);
+    PROBE_ON.store(on, std::sync::atomic::Ordering::SeqCst);
+}
+#[inline]
+pub fn drop_probe() {
+    if !PROBE_ON.load(Relaxed) {
+        return;
+    }
+    let p = PROBE.read().unwrap().clone();
+    if let Some(p) = p {
+        PROBE_CALLS.fetch_add(1, Relaxed);
+        p();
+    }
 }
 
 // ---- zero-sized ------------------------------------------------------------
